@@ -2,6 +2,7 @@ package main
 
 import (
 	"fmt"
+	"math"
 
 	"github.com/esimov/gogu"
 	"verif/enum"
@@ -393,6 +394,7 @@ func c12Flatten(r *R) {
 	}
 	c12FlattenDeep(r)
 	c12Stateful(r)
+	c12Large(r)
 	for _, n := range nestings(depth, leaves, true) {
 		var got []int
 		var err error
@@ -575,4 +577,98 @@ func b2i(b bool) int {
 		return 1
 	}
 	return 0
+}
+
+// c12Large: the reshaping helpers on long inputs and with extreme arguments -- sizes and counts around
+// 1024 and 4096 (fast paths for "large"), a chunk size or a drop count at the ends of int ("no limit").
+func c12Large(r *R) {
+	for _, n := range []int{2, 4, 1023, 1024, 1025, 1500, 4095, 4096, 4097, 5000} {
+		s := make([]int, n)
+		for i := range s {
+			s[i] = i
+		}
+		// Drop: every count in a list around the thresholds and the length
+		for _, k := range []int{0, 1, 2, 9, 10, 1000, 1023, 1024, 1025, n / 2, n - 11, n - 10, n - 1, n, n + 1, math.MaxInt - 1, math.MaxInt} {
+			for _, sign := range []int{1, -1} {
+				cnt := k * sign
+				if k < 0 {
+					continue
+				}
+				var got []int
+				p, msg := enum.Try(func() { got = gogu.Drop(cp(s), cnt) })
+				r.Eval("Drop/large")
+				wit := fmt.Sprintf("Drop([0..%d], %d)", n-1, cnt)
+				if p {
+					r.Bad("Drop/panic/large", wit, "panicked: %s", msg)
+					continue
+				}
+				kk := k
+				if kk > n {
+					kk = n
+				}
+				want := s[kk:]
+				if sign < 0 {
+					want = s[:n-kk]
+				}
+				if !eqSlice(got, want) {
+					first := -1
+					if len(got) > 0 {
+						first = got[0]
+					}
+					r.Bad("Drop/wrong/large", wit, "got %d elements starting with %d, want %d elements", len(got), first, len(want))
+				}
+			}
+		}
+		// Chunk: sizes around the length and at the end of int
+		for _, size := range []int{1, 2, 3, n - 1, n, n + 1, 1024, 4096, math.MaxInt/2 + 1, math.MaxInt - n, math.MaxInt - 1, math.MaxInt} {
+			if size < 1 {
+				continue
+			}
+			var got [][]int
+			p, msg := enum.Try(func() { got = gogu.Chunk(cp(s), size) })
+			r.Eval("Chunk/large")
+			wit := fmt.Sprintf("Chunk([0..%d], %d)", n-1, size)
+			if p {
+				r.Bad("Chunk/panic/large", wit, "panicked: %s", msg)
+				continue
+			}
+			var cat []int
+			ok := true
+			for i, c := range got {
+				cat = append(cat, c...)
+				if len(c) == 0 || len(c) > size || (i < len(got)-1 && len(c) != size) {
+					ok = false
+				}
+			}
+			if !eqSlice(cat, s) || !ok {
+				r.Bad("Chunk/concatenation-differs-from-input/large", wit, "got %d chunks holding %d elements (chunk lengths ok: %t)", len(got), len(cat), ok)
+			}
+		}
+		// the predicate splitters and Reverse on long inputs
+		even := func(v int) bool { return v%2 == 0 }
+		var yes, no []int
+		for _, v := range s {
+			if even(v) {
+				yes = append(yes, v)
+			} else {
+				no = append(no, v)
+			}
+		}
+		r.Eval("splitters/large")
+		if part := gogu.Partition(cp(s), even); !eqSlice(part[0], yes) || !eqSlice(part[1], no) {
+			r.Bad("Partition/wrong/large", fmt.Sprintf("Partition([0..%d], even)", n-1), "got %d and %d elements", len(part[0]), len(part[1]))
+		}
+		if !eqSlice(gogu.Filter(cp(s), even), yes) || !eqSlice(gogu.Reject(cp(s), even), no) {
+			r.Bad("Filter-Reject/wrong/large", fmt.Sprintf("Filter/Reject([0..%d], even)", n-1), "results differ from the reference")
+		}
+		rv := gogu.Reverse(cp(s))
+		for i := range rv {
+			if rv[i] != n-1-i {
+				r.Bad("Reverse/wrong/large", fmt.Sprintf("Reverse([0..%d])", n-1), "element %d is %d", i, rv[i])
+				break
+			}
+		}
+	}
+	r.Nontrivial("large-a")
+	r.Nontrivial("large-b")
 }
